@@ -39,15 +39,17 @@ res={}
 try:
     for l in open(f"{V}/seeded/RESULTS.tsv"):
         a=l.rstrip("\n").split("\t")
-        if len(a)>=5: res[a[0]]=a
+        if len(a)>=5: res.setdefault(a[0],[]).append(a)
 except FileNotFoundError: pass
 for d in sorted(glob.glob(f"{V}/seeded/C*")):
     m=os.path.basename(d)
     try: meta=json.load(open(d+"/meta.json"))
     except Exception: continue
-    r=res.get(m)
-    verdict="not run" if not r else ("**caught** (exit 1)" if "rc=1" in r[3] else ("MISSED (exit 0)" if "rc=0" in r[3] else r[3]))
-    sigs=(r[4] if r else "")[:160]
-    out.append(f"| {m} | {meta.get('property')} | {meta.get('what','')[:200].replace('|','/')} | {meta.get('needs','')[:160].replace('|','/')} | {verdict} | `{sigs}` |")
+    rs=res.get(m) or [None]
+    for i,r in enumerate(rs):
+        verdict="not run" if not r else ("**caught** (exit 1)" if "rc=1" in r[3] else ("MISSED (exit 0)" if "rc=0" in r[3] else r[3]))
+        if len(rs)>1: verdict += " (first run)" if i==0 else " (after strengthening)"
+        sigs=(r[4] if r else "")[:160]
+        out.append(f"| {m} | {meta.get('property')} | {meta.get('what','')[:200].replace('|','/') if i==0 else '(same change)'} | {meta.get('needs','')[:160].replace('|','/') if i==0 else ''} | {verdict} | `{sigs}` |")
 open(f"{V}/tools/design12_generated.md","w").write("\n".join(out)+"\n")
 print("written", len(out), "lines")
